@@ -524,6 +524,10 @@ def run_guarded(module, func, payload, timeout):
 
 
 def start_guarded(module, func, payload):
+    """Start harness.<module>.<func>(payload) in a fresh python process; stdout / stderr are drained by reader threads from
+    the start (a full pipe would block the worker)."""
+    import threading
+
     code = ("import sys, json\n"
             "from harness import common\n"
             "common.init_jax()\n"
@@ -532,6 +536,18 @@ def start_guarded(module, func, payload):
             "sys.stdout.write('\\n@@RESULT@@' + json.dumps(res, default=str))\n")
     p = subprocess.Popen([sys.executable, "-c", code], stdin=subprocess.PIPE, stdout=subprocess.PIPE, stderr=subprocess.PIPE,
                          text=True, env=dict(os.environ), cwd=os.environ.get("VERIF_REPO", "/repo"))
+    p.out_lines, p.err_chunks = [], []
+
+    def rd_out():
+        for line in p.stdout:
+            p.out_lines.append(line)
+
+    def rd_err():
+        p.err_chunks.append(p.stderr.read())
+    p.t_out = threading.Thread(target=rd_out, daemon=True)
+    p.t_err = threading.Thread(target=rd_err, daemon=True)
+    p.t_out.start()
+    p.t_err.start()
     p.stdin.write(json.dumps(payload))
     p.stdin.close()
     return p
@@ -539,22 +555,14 @@ def start_guarded(module, func, payload):
 
 def finish_guarded(p, timeout):
     """Wait at most `timeout` seconds for a process started with start_guarded; kill it BY PID when it does not return."""
-    import threading
-
-    buf = {}
-
-    def rd():
-        buf["out"] = p.stdout.read()
-        buf["err"] = p.stderr.read()
-    t = threading.Thread(target=rd, daemon=True)
-    t.start()
-    t.join(timeout)
-    if t.is_alive():
+    p.t_out.join(timeout)
+    if p.t_out.is_alive():
         p.kill()
-        t.join(10)
+        p.t_out.join(10)
         return {"timeout": True}
     p.wait()
-    out = buf.get("out", "")
+    p.t_err.join(5)
+    out = "".join(p.out_lines)
     if "@@RESULT@@" not in out:
-        return {"error": (buf.get("err") or out)[-1500:]}
+        return {"error": f"exit code {p.returncode}: " + ("".join(p.err_chunks) or out)[-1500:]}
     return json.loads(out.split("@@RESULT@@")[-1])
